@@ -266,6 +266,13 @@ func (w *world) runAccess(x *consumer, ctx context.Context) {
 			c.Fail("C10.A1.released-value", "Access invoked its callback with value %d, which has been released without having been invalidated", rc.n)
 		}
 		beh := c.S.Plan(4)
+		if beh == 1 && c.S.PlanP(300) {
+			// the callback's own, ordinary result happens to be the context.Canceled sentinel
+			c.S.Count("probe:access-cb-returns-canceled-sentinel")
+			core.YieldN("refcountx.access-cb", c.S.Plan(3))
+			inv.err = context.Canceled
+			return inv.err
+		}
 		switch beh {
 		case 0:
 			core.YieldN("refcountx.access-cb", c.S.Plan(4))
